@@ -378,36 +378,7 @@ func checkC10(p *core.Program, r *core.Report) {
 	}
 	effects(unreg, R2, "CloseConnection")
 	effects(cancel, R3, "AbortPendingHandshake")
-	// ship side of cancel
-	if fr := getFSM(p, r, R3); fr != nil {
-		f := fr.f
-		ab := ""
-		if m := p.Method("ship", "ShipConnection", "AbortPendingHandshake"); m != nil {
-			ab = p.FnName(m)
-		}
-		for _, st := range []string{"SmeHelloStatePendingListen", "SmeHelloStateReadyListen"} {
-			okAll, n := true, 0
-			var ends []string
-			for _, er := range fr.results {
-				if er.entry != ab || f.stateName(er.init.state) != st || er.init.closed {
-					continue
-				}
-				for _, fin := range er.final {
-					n++
-					if !f.inT(fin.state) {
-						okAll = false
-						ends = append(ends, f.stateName(fin.state))
-					}
-				}
-			}
-			key := "ship abort entry from " + st + " ends terminal"
-			if n > 0 && okAll {
-				r.OK(R3, key, "", "every path of AbortPendingHandshake ends in a terminal state")
-			} else {
-				r.Fail(R3, key, "", fmt.Sprintf("cancelling while the connection is in %s does not end the handshake (ends in %v): it can complete later", st, ends))
-			}
-		}
-	}
+	checkAbortEntry(p, r, R3)
 	// R4
 	sg := a.shutdownGate(r, R4)
 	for _, d := range a.dialFns {
@@ -455,6 +426,40 @@ func walkLookup(p *core.Program, v ssa.Value, f *types.Var, depth int, out *bool
 					walkLookup(p, core.ResultOf(ret, 0), f, depth-1, out)
 				}
 			})
+		}
+	}
+}
+
+// checkAbortEntry: in the extracted ship automaton the user-abort entry takes
+// both waiting states to a terminal state on every path (shared by C10.R3 and C01.R5).
+func checkAbortEntry(p *core.Program, r *core.Report, rule string) {
+	if fr := getFSM(p, r, rule); fr != nil {
+		f := fr.f
+		ab := ""
+		if m := p.Method("ship", "ShipConnection", "AbortPendingHandshake"); m != nil {
+			ab = p.FnName(m)
+		}
+		for _, st := range []string{"SmeHelloStatePendingListen", "SmeHelloStateReadyListen"} {
+			okAll, n := true, 0
+			var ends []string
+			for _, er := range fr.results {
+				if er.entry != ab || f.stateName(er.init.state) != st || er.init.closed {
+					continue
+				}
+				for _, fin := range er.final {
+					n++
+					if !f.inT(fin.state) {
+						okAll = false
+						ends = append(ends, f.stateName(fin.state))
+					}
+				}
+			}
+			key := "ship abort entry from " + st + " ends terminal"
+			if n > 0 && okAll {
+				r.OK(rule, key, "", "every path of AbortPendingHandshake ends in a terminal state")
+			} else {
+				r.Fail(rule, key, "", fmt.Sprintf("cancelling while the connection is in %s does not end the handshake (ends in %v): it can complete later", st, ends))
+			}
 		}
 	}
 }
